@@ -53,9 +53,9 @@ def chunk_of(layname, prefer_quick=True):
 #   shards : processes per bin per tier
 
 
-def S(body, chunks=LAYOUT, n=None, shards=None, args=None, args_tier=None):
+def S(body, chunks=LAYOUT, n=None, shards=None, args=None, args_tier=None, gen=None):
     return dict(body=body, chunks=chunks, n=n or {"quick": 1000, "thorough": 8000},
-                shards=shards or {"quick": 4, "thorough": 2}, args=args or [], args_tier=args_tier or {})
+                shards=shards or {"quick": 4, "thorough": 2}, args=args or [], args_tier=args_tier or {}, gen=gen)
 
 
 ST_ARITH = S("arith", n={"quick": 1500, "thorough": 12000})
@@ -64,6 +64,8 @@ ST_REM = S("rem", n={"quick": 4000, "thorough": 30000}, args_tier={"thorough": [
 ST_CONVI = S("convi", n={"quick": 250, "thorough": 1500})
 ST_XTYPE = S("xtype", chunks=XPAIR, n={"quick": 600, "thorough": 3000})
 ST_FLT = S("flt", n={"quick": 3000, "thorough": 20000})
+ST_CODEC = S("codec", n={"quick": 1500, "thorough": 8000})
+ST_PARSE = S("parse", n={"quick": 500, "thorough": 2500}, gen=os.path.join(ROOT, "gen", "c08.py"))
 
 GEN_RULE = ("operands come from the seeded in-driver generator: boundary constants (0, +-ulp, +-1, MIN, MAX, 2^k+-1), log-uniform "
             "magnitudes, sparse/dense/limb-structured patterns and result-targeted partners; ")
@@ -104,6 +106,24 @@ PLANS = {
                      "24th/53rd significant bit; a coverage cell is (layout, float width, float class, fits/over/tie/exact, class of the "
                      "float result, rounded/exact); non-trivial = neither side zero",
                 need_ops=["fl32", "fl64"]),
+    "C08": dict(module="parsem", streams=[ST_PARSE], profiles=["release", "checked"],
+                rule="one event = one (layout, radix, literal) parsed by from_str* and its saturating_/wrapping_/overflowing_ forms; literals "
+                     "are written by gen/c08.py from EXACT radix expansions of grid points, rounding ties (2R+1)/2^(f+1), quarter points and "
+                     "range ends +- half an ulp of the target layout: the expansion itself, proper prefixes, the expansion with 0..0d appended "
+                     "(1-200 zeros, crossing the fast-path digit budgets 3/6/13/27/54), the predecessor ..(d-1)99..9, single-digit "
+                     "perturbations, leading/trailing zeros, signs, empty integer/fraction part, upper/lower hex, 1000-digit integers, plus a "
+                     "malformed corpus (no digits, two points, misplaced signs, blanks, exponents, prefixes, wrong-radix digits, non-ASCII "
+                     "digits); a coverage cell is (layout, radix, grid/tie/hair-from-tie/near-tie/generic/malformed, fits/over+/over-, digit "
+                     "count class, sign); non-trivial = well-formed and non-zero",
+                need_ops=["ps10", "ps2", "ps8", "ps16"]),
+    "C10": dict(module="codecm", streams=[ST_CODEC], profiles=["release", "checked"],
+                rule="one event = one (layout, bit pattern) with encode / encoded_size / max_encoded_len / the integer's own encode / decode of "
+                     "the little-endian bytes (built by the driver from the raw pattern, not from the library's output) / decode of every "
+                     "proper prefix / decode with trailing junk / le,be,ne byte views and their inverses / from_bits(to_bits) / serde_json "
+                     "text and round trip for F and Wrapping<F>; the same seeded patterns are used for every Frac of a family (and all 256 "
+                     "patterns for 8-bit layouts) so that a Frac-dependent encoding is visible; a coverage cell is (layout, class(pattern)); "
+                     "non-trivial = pattern != 0",
+                need_ops=["cd"]),
     "C06": dict(module="round", streams=[ST_ROUND], profiles=["release", "checked"],
                 rule="one event = one (layout, value) with all 23 rounding-method outcomes; values are boundary constants, structured "
                      "patterns and integer/half-integer neighbours (k, k+-ulp, k+1/2, k+1/2+-ulp) at both ends of the range; thorough "
@@ -181,7 +201,11 @@ def plan(prop, tier, seed):
                     shards = st["shards"][tier]
                     for b in stream_bins(st, tier):
                         for s in range(shards):
-                            js.append(dict(kind="pipe", body=st["body"],
+                            gen = None
+                            if st.get("gen"):
+                                gen = [PY, st["gen"], "--seed", str(seed), "--n", str(st["n"][tier]),
+                                       "--chunk", b.split("_", 1)[1], "--shard", "%d/%d" % (s, shards)]
+                            js.append(dict(kind="pipe", body=st["body"], gen=gen,
                                            drv=[bin_path(prof, b), "--seed", str(seed), "--n", str(st["n"][tier]),
                                                 "--shard", "%d/%d" % (s, shards)] + st["args"] + st["args_tier"].get(tier, []),
                                            mon=[PY, MON, P["module"], prop, prof] + P.get("mon_args", []),
